@@ -185,14 +185,14 @@ theorem attribution_all_partial (s : SchemaD) (fx : Fixes) (hfx : HeadVars fx) (
 theorem typedNodes_perm (s : SchemaD) {d d' : Doc} (h : d.defs.Perm d'.defs) (p : Node × View) :
     p ∈ typedNodes s d ↔ p ∈ typedNodes s d' := (h.flatMap_right _).mem_iff
 
-/-- **perm_definitions** for 17 of the 26 rules (`PossibleFragmentSpreads` reads the type condition of the LAST
+/-- **perm_definitions** for 17 of the 26 rules (not `SingleFieldSubscriptions`, whose clause reads the fragment table; `PossibleFragmentSpreads` reads the type condition of the LAST
     definition of a fragment name, so with duplicate fragment names its predicate depends on the order) -/
 theorem perm_definitions_all_partial (s : SchemaD) (fx : Fixes) {d d' : Doc} (h : d.defs.Perm d'.defs) (r : Rule)
-    (hr : r ∈ ProvedPermDefs) : Silent s fx r d ↔ Silent s fx r d' := by
+    (hr : r ∈ ProvedPermDefs) (hns : r ≠ .singleFieldSubscriptions) : Silent s fx r d ↔ Silent s fx r d' := by
   rw [rule_iff_permdefs s fx d r hr, rule_iff_permdefs s fx d' r hr]
   simp only [ProvedPermDefs, List.mem_append] at hr
   rcases hr with hr | hr
-  · have := spec_perm_definitions s h r hr
+  · have := spec_perm_definitions s h r hr hns
     simp only [Proved, List.mem_cons, List.not_mem_nil, or_false] at hr
     rcases hr with rfl | rfl | rfl | rfl | rfl | rfl | rfl | rfl | rfl | rfl <;> exact this
   · have hm := typedNodes_perm s h
